@@ -479,16 +479,83 @@ def d_delegate( ctx ):
     ct = src.get( 'dotdict_base.__contains__' )
     tries = [ n for n in ast.walk( ct ) if isinstance( n, ast.Try ) ]
     via_getitem = any( is_call_to( n, 'self.__getitem__' ) or ( isinstance( n, ast.Subscript ) and dotted( n.value ) == 'self' ) for n in ast.walk( ct ))
-    if tries and via_getitem:
-        res.ok( src, ct, '__contains__ = __getitem__ succeeds' )
+    from .cfg import CFG
+    ccfg = CFG( ct )
+    gcalls = [ n for n in ccfg.nodes if n.kind == 'stmt' and n.stmt is not None and any(
+        is_call_to( c, 'self.__getitem__' ) or ( isinstance( c, ast.Subscript ) and dotted( c.value ) == 'self' ) for c in ast.walk( n.stmt )) ]
+    rets = [ n for n in ccfg.nodes if n.kind == 'stmt' and isinstance( n.stmt, ast.Return ) ]
+    if tries and via_getitem and rets and all( ccfg.must_pass( ccfg.entry, r, gcalls, correlated=False ) for r in rets ):
+        res.ok( src, ct, '__contains__ = __getitem__ succeeds, on every path' )
     else:
-        res.bad( src, ct, '__contains__', 'membership must be defined through __getitem__ so that it agrees with lookup' )
+        early = [ r for r in rets if not ccfg.must_pass( ccfg.entry, r, gcalls, correlated=False ) ]
+        res.bad( src, early[0].stmt if early else ct, early[0].stmt if early else '__contains__', 'membership must be decided by attempting __getitem__ on every path, so that it agrees with lookup (indexed keys like "tags[0]" included)' )
+    # a plain dict assigned anywhere becomes an addressable level: the conversion precedes every leaf store of __setitem__
+    si0 = src.get( 'dotdict_base.__setitem__' )
+    scfg = CFG( si0 )
+    conv = [ n for n in scfg.nodes if n.kind == 'test' and pmatch( n.expr, 'isinstance( value, dict ) and not isinstance( value, dotdict_base )' ) ]
+    leaf = [ n for n in scfg.nodes if n.kind == 'stmt' and n.stmt is not None and (
+        ( isinstance( n.stmt, ast.Assign ) and isinstance( n.stmt.targets[0], ast.Subscript ) and is_call_to( n.stmt.targets[0].value, '__getitem__' ) and dotted( n.stmt.value ) == 'value' )
+        or any( is_call_to( c, '__setitem__' ) and isinstance( c.func, ast.Attribute ) and is_call_to( c.func.value, 'super' ) for c in ast.walk( n.stmt ))) ]
+    if conv and len( leaf ) >= 2 and all( scfg.must_pass( scfg.entry, l, conv, correlated=False ) for l in leaf ) and pfind( si0, 'value = self.__class__( value )' ):
+        res.ok( src, conv[0].stmt, '__setitem__: plain dicts are converted to a dotdict level before every leaf store (%d stores)' % len( leaf ))
+    else:
+        missed = [ l for l in leaf if not conv or not scfg.must_pass( scfg.entry, l, conv, correlated=False ) ]
+        res.bad( src, missed[0].stmt if missed else si0, missed[0].stmt if missed else '__setitem__', 'a plain dict stored through this path is kept as a raw dict: it is not an addressable level (d["x[1].a"] fails, iteration omits it)' )
     gi = src.get( 'dotdict_base.__getitem__' ); si = src.get( 'dotdict_base.__setitem__' ); di = src.get( 'dotdict_base.__delitem__' )
     for f in ( gi, si, di, src.get( 'dotdict_base.pop' )):
         if any( is_call_to( n, 'self._resolve' ) for n in ast.walk( f )):
             res.ok( src, f, '%s splits dotted keys with _resolve' % f.name )
         else:
             res.bad( src, f, f.name, 'dotted keys must be split by _resolve in every accessor' )
+    return res
+
+
+@rule( 'D-RESOLVE', props=( 'C16', ), floor=2 )
+def d_resolve( ctx ):
+    """dotdict._resolve: the '..' reduction joins the truncated front and the back exactly as `trunc [.] back` on every combination of empty / non-empty parts"""
+    res = Result( 'D-RESOLVE' )
+    src = ctx.src( 'dotdict.py' )
+    fn = src.get( 'dotdict_base._resolve' )
+    loops = [ w for w in ast.walk( fn ) if isinstance( w, ast.While ) and pmatch( w.test, "'..' in mine" ) ]
+    if len( loops ) != 1:
+        raise AnalysisError( "_resolve: the '..' reduction loop was not found" )
+    lp = loops[0]
+    sp = [ s_ for s_ in lp.body if pmatch( s_, "( _f, _b ) = mine.split( '..', 1 )" ) ]
+    if not sp:
+        res.bad( src, lp, "'..' loop", "the key must be split at the first '..' only" )
+        return res
+    m = pmatch( sp[0], "( _f, _b ) = mine.split( '..', 1 )" )
+    front, back = m['_f'].id, m['_b'].id
+    tr = [ s_ for s_ in lp.body if isinstance( s_, ast.Assign ) and isinstance( s_.targets[0], ast.Name ) and front in names_in( s_.value ) and s_ is not sp[0] ]
+    if not tr:
+        raise AnalysisError( '_resolve: truncation of the front part not found' )
+    trunc = tr[0].targets[0].id
+    if pmatch( tr[0].value, "%s[:max( 0, %s.rfind( '.' ))]" % ( front, front )):
+        res.ok( src, tr[0], "front is truncated at its last '.' (one level up): " + norm_text( tr[0].value ))
+    else:
+        res.bad( src, tr[0], tr[0], "'..' must drop exactly the last level of the front part: front[:max( 0, front.rfind( '.' ))]" )
+    jn = [ s_ for s_ in lp.body if isinstance( s_, ast.Assign ) and dotted( s_.targets[0] ) == 'mine' and s_ is not sp[0] ]
+    if not jn:
+        raise AnalysisError( '_resolve: re-join not found' )
+    cells = wrong = 0
+    firstbad = None
+    for t in ( '', 'a', 'a.b', 'a[1].b' ):
+        for b in ( '', 'c', '.c', 'c.d', '..c' ):
+            try:
+                got = fold( jn[0].value, { trunc: t, back: b } )
+            except NoFold as exc:
+                raise AnalysisError( '_resolve join outside the modelled subset: %s' % exc )
+            want = t + ( '.' if ( t and b ) else '' ) + b
+            cells += 1
+            if got != want:
+                wrong += 1
+                firstbad = firstbad or ( t, b, got, want )
+    res.cells = cells
+    if wrong:
+        t, b, got, want = firstbad
+        res.bad( src, jn[0], jn[0], "the '..' re-join differs from trunc [.] back on %d of %d cells, e.g. trunc=%r back=%r gives %r instead of %r (a trailing '..' no longer addresses the parent level)" % ( wrong, cells, t, b, got, want ))
+    else:
+        res.ok( src, jn[0], "re-join = trunc + ( '.' iff both non-empty ) + back on all %d cells" % cells )
     return res
 
 
